@@ -39,7 +39,9 @@ ServerUDP(sh) ==
   CASE sh \in {"empty", "one", "three", "short19", "cdLenOver", "cdInvalidNum", "stunBadCookie", "stunLenLong",
                "stunLenShort", "stunLenFFEC", "attrOverrun", "respSuccess", "respError", "indBinding", "indAllocate",
                "reqUnknownMethod", "dataInd"} -> Silent
-    [] sh \in {"cdUnbound", "sendNoPerm", "sendNoData", "sendNoPeer"} -> Silent
+    [] sh \in {"cdUnbound", "sendNoPerm", "sendNoData", "sendNoPeer", "sendEmptyPeer48"} -> Silent
+       \* (sendEmptyPeer48: a 48-byte Send indication whose LAST attribute is an XOR-PEER-ADDRESS of length zero: the
+       \*  value is the empty tail of a buffer without spare capacity)
     [] sh \in {"cdBound", "cdBoundCookie"} -> IF st = "udp" THEN Relay ELSE Silent   \* a TCP allocation has no datagram relay
        \* (cdBoundCookie: the data begins with the STUN magic cookie -- ChannelData all the same)
     [] sh = "sendOK"     -> IF st = "udp" THEN Relay ELSE Silent
@@ -69,7 +71,8 @@ Client(sh) ==
   CASE sh \in {"appData", "empty", "one", "short19"} -> Cl(FALSE, FALSE)            \* application data
     [] sh \in {"stunTruncated", "stunAttrOverrun", "request"} -> Cl(TRUE, TRUE)
     [] sh \in {"respUnknownTx", "indUnknownMethod", "dataIndNoConn"} -> Cl(TRUE, FALSE)
-    [] sh \in {"dataIndNoPeer", "dataIndNoData", "attemptNoPeer", "attemptNoID", "attemptShortID"} -> Cl(TRUE, TRUE)
+    [] sh \in {"dataIndNoPeer", "dataIndNoData", "attemptNoPeer", "attemptNoID", "attemptShortID",
+               "dataIndEmptyPeer", "attemptEmptyPeer"} -> Cl(TRUE, TRUE)     \* (…EmptyPeer: XOR-PEER-ADDRESS of length zero, last)
     [] sh = "dataIndOK" -> Cl(TRUE, FALSE)
     [] sh = "attemptOK" -> Cl(TRUE, FALSE)
     [] sh \in {"cdKnown", "cdKnownCookie"} -> Cl(TRUE, FALSE)
@@ -101,13 +104,13 @@ C09_ClosedOnlyStreams == [][\A o \in out' : (o.k = "outcome" /\ o.cls = "closed"
 
 MCServerUDP == {"empty", "one", "three", "short19", "cdLenOver", "cdInvalidNum", "cdUnbound", "cdBound", "cdBoundCookie", "stunBadCookie",
                 "stunLenLong", "stunLenShort", "stunUnaligned", "stunLenFFEC", "attrOverrun", "respSuccess", "respError",
-                "indBinding", "indAllocate", "reqUnknownMethod", "dataInd", "sendOK", "sendNoPerm", "sendNoData", "sendNoPeer",
+                "indBinding", "indAllocate", "reqUnknownMethod", "dataInd", "sendOK", "sendNoPerm", "sendNoData", "sendNoPeer", "sendEmptyPeer48",
                 "bindingOK", "bindingUnkOpt", "bindingUnkReq", "allocUnkReq", "allocNoAuth", "refreshNoAuth", "cpNoAuth",
                 "cbNoAuth", "connectNoAuth", "cbindNoAuth", "allocDupAttrs", "mutated"}
 MCServerStream == {"junk20", "stunBadCookie", "prefixStunFFEC", "prefixChanFFFF", "prefix3", "empty", "bindingOK",
                    "bindingUnkReq", "allocNoAuth", "cdUnbound", "cdUnboundCookie", "cdOversize", "stunOversize", "respSuccess", "indBinding", "mutated"}
 MCClient == {"appData", "empty", "one", "short19", "stunTruncated", "stunAttrOverrun", "request", "respUnknownTx",
-             "indUnknownMethod", "dataIndNoPeer", "dataIndNoData", "dataIndOK", "attemptNoPeer", "attemptNoID", "attemptShortID", "attemptOK",
+             "indUnknownMethod", "dataIndNoPeer", "dataIndNoData", "dataIndOK", "attemptNoPeer", "attemptNoID", "attemptShortID", "attemptOK", "dataIndEmptyPeer", "attemptEmptyPeer",
              "cdKnown", "cdKnownCookie", "cdUnknown", "cdLenOver", "nonStunFromServer", "burstData", "burstAttempts", "mutated"}
 ASSUME PrintT("META " \o ToJson([Sys |-> "dispatch", Extra |-> [mode |-> Mode]]))
 EmitEdge == PrintT("EDGE " \o ToJson([s |-> [st |-> st, stun |-> stun], a |-> last', o |-> out', t |-> [st |-> st', stun |-> stun']]))
